@@ -144,6 +144,7 @@ func (pn File) InitializeForCLI(set *flag.FlagSet) {
 
 type fileNodeGraphSchema struct {
 	Name         string             `json:"name"`
+	Description  string             `json:"description"`
 	CurrentValue *jbtf.Bytes        `json:"currentValue"`
 	DefaultValue *jbtf.Bytes        `json:"defaultValue"`
 	CLI          *CliConfig[string] `json:"cli"`
@@ -151,8 +152,9 @@ type fileNodeGraphSchema struct {
 
 func (pn *File) ToJSON(encoder *jbtf.Encoder) ([]byte, error) {
 	schema := fileNodeGraphSchema{
-		Name: pn.Name,
-		CLI:  pn.CLI,
+		Name:        pn.Name,
+		Description: pn.Description,
+		CLI:         pn.CLI,
 	}
 
 	if pn.Value() != nil {
@@ -177,6 +179,7 @@ func (pn *File) FromJSON(decoder jbtf.Decoder, body []byte) (err error) {
 	}
 
 	pn.Name = gn.Name
+	pn.Description = gn.Description
 	pn.CLI = gn.CLI
 
 	if gn.DefaultValue != nil {
